@@ -62,21 +62,30 @@ func (r *repo) cold() *repo {
 	return n
 }
 
-func (r *repo) engine() (*engine.SqlEngine, *sql.Context) {
+// engine starts the SQL engine over this environment. Failing to start is a loader outcome (after a collection
+// that dropped a referenced chunk the engine cannot open the database), not a harness error.
+func (r *repo) engine() (*engine.SqlEngine, *sql.Context, error) {
 	if r.eng != nil {
-		return r.eng, r.sqlCtx
+		return r.eng, r.sqlCtx, nil
 	}
 	mrEnv, err := env.MultiEnvForDirectory(bg, r.dEnv.FS, r.dEnv)
-	rig.Must(err)
+	if err != nil {
+		return nil, nil, fmt.Errorf("MultiEnvForDirectory: %w", err)
+	}
 	eng, err := engine.NewSqlEngine(bg, mrEnv, &engine.SqlEngineConfig{
 		IsReadOnly: false, ServerUser: "root", ServerHost: "localhost", Autocommit: true,
 	})
-	rig.Must(err)
+	if err != nil {
+		return nil, nil, fmt.Errorf("engine.NewSqlEngine: %w", err)
+	}
 	ctx, err := eng.NewLocalContext(bg)
-	rig.Must(err)
+	if err != nil {
+		eng.Close()
+		return nil, nil, fmt.Errorf("NewLocalContext: %w", err)
+	}
 	ctx.SetCurrentDatabase(mrEnv.GetFirstDatabase())
 	r.eng, r.sqlCtx = eng, ctx
-	return eng, ctx
+	return eng, ctx, nil
 }
 
 func (r *repo) closeEngine() {
@@ -93,7 +102,10 @@ func (r *repo) close() {
 
 // query runs one statement and drains the result.
 func (r *repo) query(q string) ([]sql.Row, error) {
-	eng, ctx := r.engine()
+	eng, ctx, err := r.engine()
+	if err != nil {
+		return nil, err
+	}
 	_, iter, _, err := eng.Query(ctx, q)
 	if err != nil {
 		return nil, err
